@@ -241,6 +241,29 @@ def write_coqproject():
             raise RuntimeError("coq_makefile failed:\n" + out)
 
 
+def gen_closure(prop_id, declared=()):
+    """names of the Gen/*.v files reachable from Properties/<id>.v through `From TW Require Import/Export` lines"""
+    seen, todo, gens = set(), ["Properties/%s.v" % prop_id], set()
+    pat = re.compile(r"\b(Lib|Model|Gen|Proofs|Properties)\.([A-Za-z0-9_]+)")
+    while todo:
+        f = todo.pop()
+        if f in seen:
+            continue
+        seen.add(f)
+        path = os.path.join(COQ, f)
+        if not os.path.exists(path):
+            continue
+        for line in open(path):
+            if "Require" not in line:
+                continue
+            for d, m in pat.findall(line):
+                if d == "Gen":
+                    gens.add(m)
+                todo.append("%s/%s.v" % (d, m))
+    order = [g for g in declared if g in gens or True]
+    return list(dict.fromkeys(list(order) + sorted(gens)))
+
+
 AXIOM_ALLOW = set()  # the development is axiom-free; anything printed is reported
 
 
@@ -534,6 +557,9 @@ def run_check(prop, tier, seed):
     try:
         # 1. translate
         tr_errors = []
+        # every generated file the property's theorems depend on (transitively, through the proof files they import) is
+        # regenerated from the current source: a file left over from an earlier run on another tree must never be used
+        prop.gen_targets = gen_closure(prop.id, prop.gen_targets)
         with CoqLock():
             for tgt in prop.gen_targets:
                 try:
